@@ -1,5 +1,7 @@
 package app
 
+import "math/bits"
+
 // GCDuint32 - greatest common divisor (GCD) via Euclidean algorithm
 func GCDuint32(a, b uint32) uint32 {
 	for b != 0 {
@@ -8,4 +10,18 @@ func GCDuint32(a, b uint32) uint32 {
 		a = t
 	}
 	return a
+}
+
+// rescaleTime returns t * num / den without overflow of the intermediate product
+// (times since 1970 at 90 kHz times a 90 kHz timescale do not fit into int64).
+func rescaleTime(t int64, num, den uint32) int64 {
+	if num == den || den == 0 || t < 0 {
+		return t
+	}
+	hi, lo := bits.Mul64(uint64(t), uint64(num))
+	if hi >= uint64(den) {
+		return t / int64(den) * int64(num)
+	}
+	q, _ := bits.Div64(hi, lo, uint64(den))
+	return int64(q)
 }
